@@ -207,7 +207,7 @@ class DocStream(Stream):
             'rules), 1.2.0 (typed, context) and 1.4.0 (compiled fields) with built-in, renamed, custom (primitive and '
             'non-primitive payload), RegexMatchRule, 1.2.0-only and malformed-JSON rule payloads and rule-based '
             'policies; all prefixes of the up and down paths over migrations 2-4 from each layout; both server '
-            'version branches; compared: ids reported as failed per step and the resulting documents. non-trivial = '
+            'version branches; every 55th collection has 50-120 documents (the window edges of the batched walk of migration 4); compared: ids reported as failed per step and the resulting documents. non-trivial = '
             'case in which a step reports a failed document and another document is converted')
 
     def generate(self, rng, tier):
@@ -217,8 +217,13 @@ class DocStream(Stream):
         for i in range(n):
             layout = rng.choice(list(ORDER))
             lps = []
-            for j in range(rng.randint(1, 4)):
-                k = rng.choice(kinds)
+            # every 55th collection is a large one: migration #4 walks the collection in windows of 50 documents
+            # (Storage.retrieve_all over MongoStorage.get_all) - the window edges must not lose or repeat a document
+            big = rng.choice([50, 51, 99, 100, 101, 120]) if i % 55 == 7 else 0
+            if big:
+                layout = rng.choice(['1.1.1', '1.2.0'])
+            for j in range(big or rng.randint(1, 4)):
+                k = rng.choice(kinds) if not big else 'convertible'
                 if k == 'bad_json' and layout != '1.1.0':
                     k = 'convertible'
                 if k in ('new_only', 'rule_based') and ORDER[layout] < 3:
@@ -228,6 +233,8 @@ class DocStream(Stream):
                 lps.append(gen_logical(rng, 'u%d' % j, k))
             docs = [legacy_doc(lp, layout) for lp in lps]
             steps = rng.choice(paths_from(layout))
+            if big:
+                steps = max((p for p in paths_from(layout) if p and all(x.startswith('up') for x in p)), key=len)
             if 'up4' in steps and any(any(r[1][0] in ('BadJson',) for r in lp['rules']) for lp in lps):
                 steps = steps[:steps.index('up4')]
                 if not steps:
